@@ -1628,6 +1628,8 @@ def run(chk, cases=None):
     if pending and not concrete:
         chk.report(pending[0], no_failing_input=True)
     source_tie(chk, cases, results)
+    from props import c06_tie    # second tie (unit C06BSrc): calc_full_log_probs_chunked / calc_full_log_probs
+    c06_tie.source_tieB(chk, cases, results)
     if not replaying:
         huge_table_check(chk, chk.seed, chk.rng.choice([32765, 32766, 32767]))  # int16 / int32 boundary of the offsets
         huge_table_check(chk, chk.seed, 32800)                                  # well inside int32
